@@ -89,6 +89,22 @@ class SeekableSource(DuckSeekableSource):
         return True
 
 
+class FilenoSeekableSource(SeekableSource):
+    """A seekable stream whose fileno() belongs to a file of a DIFFERENT length than the logical stream (gzip.open, bz2 / lzma
+    readers, file-slice wrappers): the stream's own seek/tell are the only truth about its size."""
+
+    def __init__(self, world, label, data, start=0, read_caps=None):
+        super().__init__(world, label, data, start=start, read_caps=read_caps)
+        import tempfile
+
+        self._backing = tempfile.TemporaryFile()
+        self._backing.write(b'z' * (len(data) // 3 if len(data) % 2 else 2 * len(data) + 7))
+        self._backing.flush()
+
+    def fileno(self):
+        return self._backing.fileno()
+
+
 class NonSeekableSource:
     """Readable stream without seek/tell (pipe-like).  ``read(n)`` returns up to
     n bytes; short reads only when scripted, because s3transfer documents that
@@ -150,7 +166,7 @@ class RaisingSeekSource(NonSeekableSource):
         raise OSError(29, 'Illegal seek')
 
 
-SEEKABLE_FLAVORS = {'declared': SeekableSource, 'duck': DuckSeekableSource}
+SEEKABLE_FLAVORS = {'declared': SeekableSource, 'duck': DuckSeekableSource, 'fileno': FilenoSeekableSource}
 NONSEEKABLE_FLAVORS = {'bare': NonSeekableSource, 'declared': DeclaredNonSeekableSource, 'raising': RaisingSeekSource}
 
 
